@@ -252,6 +252,52 @@ func genShaped(r *vgen.Rand) []op {
 	return ops
 }
 
+// genShadow draws a sleeping history in which a long-lived revocation A is replaced
+// by a NEWER but SHORT-lived revocation C for the same interface (C expires at base+3,
+// A would live until base+13 or longer). After the sleep C is expired and A is gone:
+// the cache keeps one revocation per interface, the most recently accepted one, so
+// the lookup returns nothing although A was accepted and is unexpired; offering A
+// again then succeeds. (Reading of the property recorded in spec/C31.json.)
+func genShadow(r *vgen.Rand) []op {
+	k := r.Intn(len(pool))
+	link := func() uint16 { return uint16(r.Intn(5)) }
+	tsA := vgen.Pick(r, int64(-60), -20, -10)
+	a := op{Kind: opInsert, Key: k, TsRel: tsA, ExpRel: vgen.Pick(r, int64(13), 18, 1003), Link: link()}
+	c := op{Kind: opInsert, Key: k, TsRel: vgen.Pick(r, int64(-5), 0, 1), ExpRel: 3, Link: link()}
+	filler := func(n int) []op {
+		var out []op
+		for i := 0; i < n; i++ {
+			switch r.Intn(3) {
+			case 0:
+				o := genInsert(r, true)
+				o.Key = (k + 1 + r.Intn(len(pool)-1)) % len(pool)
+				out = append(out, o)
+			case 1:
+				out = append(out, op{Kind: opAll})
+			default:
+				out = append(out, op{Kind: opGet, Key: r.Intn(len(pool))})
+			}
+		}
+		return out
+	}
+	ops := []op{a}
+	ops = append(ops, filler(r.Intn(3))...)
+	ops = append(ops, c, op{Kind: opGet, Key: k})
+	ops = append(ops, filler(r.Intn(3))...)
+	ops = append(ops, op{Kind: opSleep}) // T = 5: C expired; A was replaced
+	if r.Bool() {
+		ops = append(ops, op{Kind: opDel})
+	}
+	ops = append(ops, op{Kind: opGet, Key: k}, op{Kind: opAll}, a, op{Kind: opGet, Key: k})
+	// an even older one is refused again while A is live
+	ops = append(ops, op{Kind: opInsert, Key: k, TsRel: tsA - 40, ExpRel: 1003, Link: link()}, op{Kind: opGet, Key: k})
+	ops = append(ops, filler(r.Intn(3))...)
+	if r.Bool() {
+		ops = append(ops, op{Kind: opSleep}, op{Kind: opGet, Key: k}, op{Kind: opDel}, op{Kind: opAll})
+	}
+	return ops
+}
+
 // execute runs one history on a fresh cache. base is the base second; for a
 // sleeping history the caller has aligned the clock to just after base.
 // ok=false: a timing check failed, the observations must not be used.
@@ -514,6 +560,9 @@ func main() {
 		if i%2 == 0 {
 			// clean-up between two expirations on different interfaces, then time passes again
 			hs = append(hs, &hist{sleeping: true, ops: genShaped(r)})
+		} else if i%4 == 1 {
+			// a newer short-lived revocation replaces a long-lived one, then expires
+			hs = append(hs, &hist{sleeping: true, ops: genShadow(r)})
 		} else {
 			hs = append(hs, &hist{sleeping: true, ops: genHistory(r, true, maxSleeps)})
 		}
